@@ -71,6 +71,7 @@ pub fn absorb(report: &mut Report, r: &ExploreResult, props: &[Prop], per_scenar
         "transitions": r.transitions,
         "executions": r.executions,
         "max_depth": r.max_depth,
+        "depth_bound": r.depth_bound,
         "quiescent_states": r.quiescent_states,
         "distinct_outcomes": r.outcomes.len(),
         "max_enabled_at_once": r.max_enabled,
